@@ -6,8 +6,8 @@ EXTENDS Constraint, TLC
 CONSTANTS CAmts0,     \* non-negative amounts usable inside constraints (the negative amount -2 is always added)
           FAmts,      \* fungible balance amounts
           Ids         \* non-fungible ids
-VARIABLES mode, c, b, cs, bal, only
-vars == <<mode, c, b, cs, bal, only>>
+VARIABLES mode, c, b, cs, bal, only, bseq
+vars == <<mode, c, b, cs, bal, only, bseq>>
 
 CAmts == CAmts0 \cup {-2}
 IdSets == SUBSET Ids
@@ -37,19 +37,37 @@ ConstraintMaps == UNION {[S -> UNION {Some(r) : r \in Res}] : S \in SUBSET Res}
 WellTyped(m) == \A r \in DOMAIN m : m[r] \in Some(r)
 
 Init == /\ c \in Constraints /\ b = NoB /\ mode = "pair"
-        /\ cs = <<>> /\ bal = <<>> /\ only = FALSE
+        /\ cs = <<>> /\ bal = <<>> /\ only = FALSE /\ bseq = <<>>
 \* one (constraint, balance) pair
 CheckPair == /\ mode = "pair" /\ b = NoB
              /\ \E x \in FBals \cup NfBals : b' = x
-             /\ UNCHANGED <<mode, c, cs, bal, only>>
+             /\ UNCHANGED <<mode, c, cs, bal, only, bseq>>
 \* one assertion over several resources (started from one fixed initial state)
 CheckMulti == /\ mode = "pair" /\ b = NoB /\ c = [t |-> "nonzero"]
               /\ mode' = "multi"
               /\ \E m \in ConstraintMaps : WellTyped(m) /\ cs' = m
               /\ bal' \in [Res -> UNION {SomeBal(r) : r \in Res}] /\ \A r \in Res : bal'[r] \in SomeBal(r)
               /\ only' \in BOOLEAN
-              /\ UNCHANGED <<c, b>>
-Next == CheckPair \/ CheckMulti
+              /\ UNCHANGED <<c, b, bseq>>
+\* one assertion on what a call returned as a sequence of 1..3 buckets (same / different resources, empty buckets included)
+Zero == [r \in Res |-> IF r = 3 THEN [kind |-> "nf", ids |-> {}] ELSE [kind |-> "f", a |-> 0]]
+BucketChoices == {[r |-> 1, bal |-> [kind |-> "f", a |-> 0]], [r |-> 1, bal |-> [kind |-> "f", a |-> 2]], [r |-> 2, bal |-> [kind |-> "f", a |-> Whole]],
+                  [r |-> 3, bal |-> [kind |-> "nf", ids |-> {}]], [r |-> 3, bal |-> [kind |-> "nf", ids |-> {1}]],
+                  [r |-> 3, bal |-> [kind |-> "nf", ids |-> {2}]], [r |-> 3, bal |-> [kind |-> "nf", ids |-> {2, 3}]]}
+BucketSeqs == UNION {[1..n -> BucketChoices] : n \in 1..3}
+ReturnConstraints(r) ==
+  CASE r = 3 -> {[t |-> "exactnf", ids |-> {1}], [t |-> "exactnf", ids |-> {1, 2, 3}], [t |-> "atleast", a |-> 2 * Whole], [t |-> "atleastnf", ids |-> {2}],
+                 [t |-> "general", req |-> {}, lo |-> [k |-> "incl", a |-> 0], hi |-> [k |-> "incl", a |-> Whole], allow |-> [k |-> "any"]]}
+    [] r = 1 -> {[t |-> "exact", a |-> 2], [t |-> "atleast", a |-> Whole]}
+    [] r = 2 -> {[t |-> "nonzero"]}
+ReturnMaps == UNION {[S -> UNION {ReturnConstraints(r) : r \in Res}] : S \in SUBSET Res}
+CheckBuckets == /\ mode = "pair" /\ b = NoB /\ c = [t |-> "nonzero"]
+                /\ mode' = "buckets"
+                /\ \E m \in ReturnMaps : (\A r \in DOMAIN m : m[r] \in ReturnConstraints(r)) /\ cs' = m
+                /\ bseq' \in BucketSeqs
+                /\ only' \in BOOLEAN
+                /\ UNCHANGED <<c, b, bal>>
+Next == CheckPair \/ CheckMulti \/ CheckBuckets
 Spec == Init /\ [][Next]_vars
 
 \* per constraint (initial states): satisfiable when valid, normalisation preserves the accepted set
@@ -63,6 +81,10 @@ ValidateAll(m, bl, o) ==
   /\ o => \A r \in Res \ DOMAIN m : ~(Amt(bl[r]) > 0)
   /\ \A r \in DOMAIN m : Validate(m[r], bl[r])
 PerMulti == mode = "multi" => (ValidateAll(cs, bal, only) <=> SatAll(cs, bal, only))
+\* returned buckets: the decision on the aggregate equals the meaning on the aggregate; the aggregate does not depend on bucket order
+Reverse(sq) == [i \in 1..Len(sq) |-> sq[Len(sq) + 1 - i]]
+PerBuckets == mode = "buckets" => /\ ValidateAll(cs, Aggregate(bseq, Zero), only) <=> SatAll(cs, Aggregate(bseq, Zero), only)
+                                  /\ Aggregate(bseq, Zero) = Aggregate(Reverse(bseq), Zero)
 \* non-vacuity helpers: ASSUMEs over the universe
 ASSUME \E x \in Constraints : x.t = "general" /\ ValidFor(x, "nf") /\ Normalize(x) # x
 ASSUME \E x \in Constraints : ValidFor(x, "f") /\ ~ValidFor(x, "nf")
